@@ -432,21 +432,45 @@ func contentEq(rv reflect.Value, v *val.Val, path string) string {
 		if k != types.KMap {
 			return bad("map")
 		}
-		if rv.Len() != len(v.Map().V) {
-			return fmt.Sprintf("%s: map with %d entries became a map with %d entries (keys collide after conversion)", path, rv.Len(), len(v.Map().V))
-		}
+		// host keys that convert to the same yae key (numbers as doubles: 2^53 and 2^53+1, int 1
+		// and float 1.0 under interface keys, pointers to equal values) are one entry; the
+		// stored value must be the content of one of them.
+		groups := map[val.Key][]reflect.Value{}
+		var order []val.Key
 		it := rv.MapRange()
 		for it.Next() {
 			kv := hostKey(it.Key())
 			if kv == nil {
 				return path + ": host key has no primitive counterpart"
 			}
-			got, ok := v.Map().V[kv.Key()]
-			if !ok {
-				return fmt.Sprintf("%s: key %s is missing", path, descGo(it.Key()))
+			kk := kv.Key()
+			if _, ok := groups[kk]; !ok {
+				order = append(order, kk)
 			}
-			if r := contentEq(it.Value(), got, path+"["+descGo(it.Key())+"]"); r != "" {
-				return r
+			groups[kk] = append(groups[kk], it.Value())
+		}
+		if len(groups) != len(v.Map().V) {
+			return fmt.Sprintf("%s: map with %d distinct converted keys became a map with %d entries", path, len(groups), len(v.Map().V))
+		}
+		for _, kk := range order {
+			got, ok := v.Map().V[kk]
+			if !ok {
+				return fmt.Sprintf("%s: key %s is missing", path, kk)
+			}
+			first := ""
+			matched := false
+			for _, hv := range groups[kk] {
+				r := contentEq(hv, got, path+"["+kk.String()+"]")
+				if r == "" {
+					matched = true
+					break
+				}
+				if first == "" {
+					first = r
+				}
+			}
+			if !matched {
+				return first
 			}
 		}
 	case reflect.Struct:
